@@ -2,7 +2,8 @@
     room state: level fields, level maps, creator, user level, required level, membership and
     join-rule reads. *)
 From Base Require Import Prelude Sx Json Rules.
-From C08 Require Import Types Model Spec Proofs1.
+From Gen Require Import TypeAliases.
+From C08 Require Import Types Model Spec Known Proofs1.
 From Coq Require Import ZifyBool ZifyN.
 
 (** The code's field enum against the specification's. *)
@@ -88,11 +89,85 @@ Proof.
   destruct (olookup u users); [reflexivity|]. apply get_as_int_or_default_spec.
 Qed.
 
+(** ** The [events] map: keys through [TimelineEventType::from] *)
+Lemma fold_left_ext {X Y} (f g : X -> Y -> X) l a :
+  (forall y, In y l -> forall x, f x y = g x y) -> fold_left f l a = fold_left g l a.
+Proof.
+  revert a; induction l as [|y l IH]; intros a H; cbn [fold_left]; [reflexivity|].
+  rewrite (H y (or_introl eq_refl)). apply IH. intros; apply H; now right.
+Qed.
+
+Lemma canon_map_id (m : amap Z) :
+  sorted m -> (forall kz, In kz m -> is_alias (fst kz) = false) -> canon_map m = m.
+Proof.
+  intros Hs Ha. unfold canon_map.
+  rewrite (fold_left_ext _ (fun acc kv => insert (fst kv) (snd kv) acc)).
+  - exact (rebuild_sorted_id m Hs).
+  - intros kz Hin acc. specialize (Ha kz Hin). unfold is_alias in Ha. unfold canon_type.
+    now destruct (lookup (fst kz) type_aliases).
+Qed.
+
+Lemma int_map_entries_keys keyok (m : obj) m' :
+  int_map_entries r keyok m = Some m' -> List.map fst m' = List.map fst m.
+Proof.
+  revert m'; induction m as [|[k j] m IH]; intros m'; cbn [int_map_entries].
+  - now intros [= <-].
+  - destruct (keyok k); [|discriminate]. destruct (pl_int r j); [|discriminate].
+    destruct (int_map_entries r keyok m) as [rest|]; [|discriminate].
+    intros [= <-]. cbn [List.map fst]. now rewrite (IH rest eq_refl).
+Qed.
+
+Lemma sorted_same_keys {X Y} (m1 : amap X) (m2 : amap Y) :
+  List.map fst m1 = List.map fst m2 -> sorted m1 -> sorted m2.
+Proof.
+  revert m2; induction m1 as [|[k x] m1 IH]; intros [|[k2 y] m2] E; try discriminate; [trivial|].
+  cbn [List.map fst] in E. injection E as <- E. cbn [sorted]. intros [G S]. split; [|now apply IH].
+  intros k' y' Hin. assert (Hk : In k' (List.map fst m2)) by (apply in_map_iff; now exists (k', y')).
+  rewrite <- E in Hk. apply in_map_iff in Hk as [[k'' x''] [<- Hin']]. exact (G _ _ Hin').
+Qed.
+
+(** What the theorem assumes about a power-levels event whose [events] is read. *)
+Definition events_ok (pl : option event) : Prop :=
+  match pl with
+  | Some p => events_sorted p = true /\ has_alias_key p = false
+  | None => True
+  end.
+
+Lemma pl_events_spec p :
+  events_sorted p = true -> has_alias_key p = false ->
+  pl_events r p = level_map v all_keys p s!"events".
+Proof.
+  unfold events_sorted, has_alias_key, pl_events. intros Hs Ha.
+  rewrite <- get_as_int_map_spec. unfold get_as_int_map, any_key, all_keys.
+  destruct (lookup s!"events" (e_content p)) as [j|]; [|reflexivity].
+  destruct j; try reflexivity.
+  destruct (int_map_entries r (fun _ => true) m) as [m'|] eqn:E; [|reflexivity].
+  rewrite canon_map_id; [reflexivity| |].
+  - eapply sorted_same_keys; [symmetry; exact (int_map_entries_keys _ _ _ E)|now apply sortedb_sorted].
+  - intros [k z] Hin. cbn [fst].
+    assert (Hk : In k (List.map fst m)).
+    { rewrite <- (int_map_entries_keys _ _ _ E). apply in_map_iff. now exists (k, z). }
+    apply in_map_iff in Hk as [[k' j'] [Ek Hin']]. cbn [fst] in Ek. subst k'.
+    destruct (is_alias k) eqn:Eal; [|reflexivity].
+    assert (existsb (fun kv => is_alias (fst kv)) m = true).
+    { apply existsb_exists. exists (k, j'). now split. }
+    congruence.
+Qed.
+
+Lemma is_some_pl_events p :
+  match pl_events r p with Some _ => true | None => false end
+  = match level_map v all_keys p s!"events" with Some _ => true | None => false end.
+Proof.
+  unfold pl_events. rewrite <- get_as_int_map_spec. unfold any_key, all_keys.
+  destruct (get_as_int_map r (fun _ => true) p s!"events") as [[m|]|]; reflexivity.
+Qed.
+
 Lemma event_power_level_spec pl ev :
+  events_ok pl ->
   event_power_level r pl (e_type ev) (e_skey ev) = required_level v pl ev.
 Proof.
-  destruct pl as [p|]; cbn [event_power_level required_level].
-  - unfold pl_events. rewrite get_as_int_map_spec. unfold any_key, all_keys.
+  intros Hok. destruct pl as [p|]; cbn [event_power_level required_level].
+  - destruct Hok as [Hs Ha]. rewrite (pl_events_spec p Hs Ha).
     destruct (level_map v _ p _) as [events|]; [|reflexivity].
     destruct (olookup (e_type ev) events); [reflexivity|].
     rewrite get_as_int_or_default_spec. destruct (e_skey ev); reflexivity.
